@@ -239,6 +239,10 @@ class Queue:
             lg.append({'t': getattr(_hub.current, 'proc', None), 'op': op, 'item': item, 'q': self})
 
     def put(self, item, block=True, timeout=None):
+        # the call of put() is a switch point of its own (CPython switches threads at calls):
+        # what the caller wrote to shared flags just before is visible before the item is
+        self._log('put_enter', item)
+        _hub.yield_point()
         self.items.append(item)
         self.unfinished_tasks += 1
         self._log('put', item)
